@@ -384,6 +384,15 @@ pub fn c11_fold() {
             result: Box::new(call("res")),
         }),
     };
+    // neighbouring elements are equal under CEL's == but are different values (int 10, double 10.0,
+    // uint 10): an evaluator that confuses "equal" with "same" shows up in what the body sees
+    fn item(k: usize) -> Value {
+        match k {
+            0 => Value::Int(10),
+            1 => Value::Float(10.0),
+            _ => Value::UInt(10),
+        }
+    }
     type Log = Arc<Mutex<Vec<(String, Option<Value>, Option<Value>)>>>;
     let log: Log = Arc::new(Mutex::new(Vec::new()));
     let counter = Arc::new(Mutex::new((0usize, 0usize)));
@@ -395,7 +404,7 @@ pub fn c11_fold() {
         let l = log.clone();
         ctx.add_function("rng", move |ftx: &cel_interpreter::FunctionContext| -> Result<Value, ExecutionError> {
             l.lock().unwrap().push(("rng".into(), see(ftx, "x"), see(ftx, "@result")));
-            if fail == 1 { ferr("rng") } else { Ok(Value::List(Arc::new((0..n as i64).map(|k| Value::Int(10 + k)).collect()))) }
+            if fail == 1 { ferr("rng") } else { Ok(Value::List(Arc::new((0..n as usize).map(item).collect()))) }
         });
         let l = log.clone();
         ctx.add_function("ini", move |ftx: &cel_interpreter::FunctionContext| -> Result<Value, ExecutionError> {
@@ -448,7 +457,7 @@ pub fn c11_fold() {
             if (conds >> k) & 1 == 0 {
                 break;
             }
-            x = Some(Value::Int(10 + k as i64));
+            x = Some(item(k));
             want.push(("stp".into(), x.clone(), Some(acc.clone())));
             if fail as usize == 8 + k {
                 result = Some(Err("stp"));
@@ -461,7 +470,8 @@ pub fn c11_fold() {
             result = Some(if fail == 3 { Err("res") } else { Ok(()) });
         }
     }
-    check!(calls == want, "comprehension: sub-expressions are evaluated in the prescribed order, each seeing exactly the bindings of its scope");
+    // compared through the Debug text: Value's == identifies int 10 with double 10.0
+    check!(format!("{:?}", calls) == format!("{:?}", want), "comprehension: sub-expressions are evaluated in the prescribed order, each seeing exactly the bindings of its scope");
     match result.unwrap() {
         Ok(()) => check!(got == Ok(Value::Int(999)), "comprehension: the result expression's value is the node's value"),
         Err(f) => check!(matches!(&got, Err(ExecutionError::FunctionError { function, .. }) if function == f), "comprehension: the first error aborts the node"),
@@ -473,9 +483,18 @@ pub fn c11_fold() {
 pub fn c20_extractor_eval() {
     let code: u8 = any();
     let bad: u8 = any(); // index of the failing argument, 3 = none
-    crate::sym::assume(code <= 2 && bad <= 3);
+    crate::sym::assume(code <= 3 && bad <= 3);
     let log: Arc<Mutex<Vec<usize>>> = Arc::new(Mutex::new(Vec::new()));
     let mut ctx = Context::default();
+    // `Arguments` after a positional parameter still receives ALL arguments of the call
+    let got_len: Arc<Mutex<Option<usize>>> = Arc::new(Mutex::new(None));
+    {
+        let g = got_len.clone();
+        ctx.add_function("h", move |_first: Value, cel_interpreter::extractors::Arguments(rest): cel_interpreter::extractors::Arguments| -> i64 {
+            *g.lock().unwrap() = Some(rest.len());
+            1
+        });
+    }
     for k in 0..3usize {
         let l = log.clone();
         ctx.add_function(&format!("f{}", k), move || -> Result<Value, ExecutionError> {
@@ -490,12 +509,19 @@ pub fn c20_extractor_eval() {
     let (src, n) = match code {
         0 => ("size(f0())", 1),    // This<Value> without receiver: consumes the first argument
         1 => ("f0().size()", 1),   // This<Value> with receiver
-        _ => ("max(f0(), f1(), f2())", 3), // Arguments: all, in order
+        2 => ("max(f0(), f1(), f2())", 3), // Arguments: all, in order
+        _ => ("h(f0(), f1(), f2())", 3),   // a positional parameter, then Arguments
     };
     let got = Program::compile(src).expect("source compiles").execute(&ctx);
     let calls = log.lock().unwrap().clone();
     let upto = if (bad as usize) < n { bad as usize + 1 } else { n };
     let want: Vec<usize> = (0..upto).collect();
+    if code == 3 {
+        if bad > 2 {
+            check!(*got_len.lock().unwrap() == Some(3), "Arguments receives every argument of the call, also after a positional parameter");
+        }
+        return;
+    }
     check!(calls == want, "extractors: every argument evaluated exactly once, in order, the first error aborts");
     if (bad as usize) < n {
         check!(got.is_err(), "extractors: a failing argument makes the call fail");
